@@ -55,16 +55,15 @@ def sh(cmd, cwd=None, env=None, timeout=900):
 
 
 def funcs_of(src):
-    """line number -> enclosing top-level function name"""
-    m, cur, depth = {}, None, 0
+    """line number -> enclosing top-level function name (top-level funcs start in column 0)"""
+    m, cur = {}, None
     for i, line in enumerate(src.split("\n")):
         g = re.match(r"^func (?:\([^)]*\) )?(\w+)", line)
-        if g and depth == 0:
+        if g:
             cur = g.group(1)
-        depth += line.count("{") - line.count("}")
-        m[i] = cur
-        if depth == 0 and line.startswith("}"):
+        elif re.match(r"^(type|var|const|import)\b", line):
             cur = None
+        m[i] = cur
     return m
 
 
